@@ -173,7 +173,7 @@ def run_case(args):
                 if isinstance(params["exploit_probs"], list):
                     params["exploit_probs"] = None
                 params.pop("address_space_bounds", None)
-            if rng.random() < 0.4:
+            if rng.random() < 0.5:
                 # the same generator object first serves one or two other parameter sets (half of them larger name
                 # lists under the same `uniform` flag: whatever it keeps between calls is then visibly stale)
                 prior = []
